@@ -585,9 +585,11 @@ def overused_constant(source: str, *, root_is_static: bool) -> str:
 
         common_scopes = set.intersection(*(scope_node_definitions[node] for node in nodes))
 
-        # root is a Module and has no lineno
+        # root is a Module and has no lineno. It ranks below every other scope, also below a function
+        # defined on line 1 (a tie would be broken by the iteration order of the set of scopes, which
+        # depends on object addresses and so differs from process to process).
         best_common_scope = max(
-            common_scopes, key=lambda node: getattr(node, "lineno", 1), default=root
+            common_scopes, key=lambda node: getattr(node, "lineno", 0), default=root
         )
         nodes = list(nodes)
         if (
